@@ -462,6 +462,8 @@ def m_insort(en, m, x):
 
 # ------------------------------------------------------------------ methods
 def call_method(en, recv, name, args, kwargs):
+    if isinstance(recv, ObjV) and recv.model is not None and hasattr(recv.model, "call_method"):
+        return recv.model.call_method(en, recv, name, args, kwargs)
     t = py_type_of(recv)
     if t is str:
         f = _STR.get(name)
@@ -688,6 +690,12 @@ def s_split(en, s, sep=None, maxsplit=-1):
 def s_join(en, s, it):
     vals = en.iter_values(it)
     if vals is None:
+        if isinstance(it, ListV):
+            r = en.fresh("join", "str")
+            en.ghost.setdefault("joins", []).append({"result": r, "sep": s, "term": it.term})
+            en.assumption_notes.add("str.join over a list of symbolic length: result kept abstract; the joined "
+                                    "list is specified element-wise (ghost)")
+            return r
         raise Unsupported("join of symbolic-length")
     out = []
     for i, v in enumerate(vals):
